@@ -1048,3 +1048,84 @@ add("toFileIsParquet", "Table", ["C13"], _CORE, "expr", [("suffix", "Str")],
     lambda t: first(func(t, "Molecules.to_file"), ast.If).test, subst={"save_path.suffix": "suffix"})
 add("fromFileIsParquet", "Table", ["C13"], _CORE, "expr", [("suffix", "Str")],
     lambda t: first(func(t, "Molecules.from_file"), ast.If).test, subst={"path.suffix": "suffix"})
+
+
+# ==========================================================================================
+# C01  pose update after alignment
+# ==========================================================================================
+def _lt_branch(t):
+    fn = func(t, "Molecules.linear_transform")
+    node = first(fn, ast.If, lambda n: _unparse_norm(n.test) == "inv")
+    return node.orelse
+
+
+def _lt_prerotates(t):
+    body = _lt_branch(t)
+    src = [_unparse_norm(s) for s in body]
+    joined = ";".join(src)
+    if "shift_corrected=rotator.apply(shift)" in joined:
+        return True
+    if "rotator.apply" in joined:
+        raise SelectorMiss("unexpected use of rotator.apply: " + joined)
+    return False
+
+
+def _lt_order(t):
+    body = _lt_branch(t)
+    r = _unparse_norm(body[-1])
+    for arg in ("shift_corrected", "shift"):
+        if r == f"returnself.translate_internal({arg}).rotate_by_rotvec_internal(rotvec)":
+            return True
+        if r == f"returnself.rotate_by_rotvec_internal(rotvec).translate_internal({arg})":
+            return False
+    raise SelectorMiss("linear_transform return: " + r)
+
+
+add("ltPreRotatesShift", "Pose", ["C01"], _CORE, "const", [], _lt_prerotates)
+add("ltTranslateFirst", "Pose", ["C01"], _CORE, "const", [], _lt_order)
+add("ltRotvecFromRotator", "Pose", ["C01"], _CORE, "const", [],
+    pattern(lambda t: _has(ast.unparse(func(t, "Molecules.linear_transform")), "rotvec = rotator.as_rotvec()")))
+add("translateInternalUsesOwnRotation", "Pose", ["C01", "C11"], _CORE, "const", [],
+    pattern(lambda t: _has(ast.unparse(func(t, "Molecules.translate_internal")),
+                           "world_shifts = self._rotator.apply(shifts)",
+                           "return self.translate(world_shifts, copy=copy)")))
+add("rotateInternalConjugates", "Pose", ["C01", "C11"], _CORE, "const", [],
+    pattern(lambda t: _has(ast.unparse(func(t, "Molecules.rotate_by_rotvec_internal")),
+                           "vec_z = cross(vec_x, vec_y, axis=1)",
+                           "world_rotvec = vec_z * vector[:, 0][:, np.newaxis] + vec_y * vector[:, 1][:, np.newaxis] "
+                           "+ vec_x * vector[:, 2][:, np.newaxis]",
+                           "return self.rotate_by_rotvec(world_rotvec, copy=copy)")))
+add("rotateByComposesLeft", "Pose", ["C01", "C11"], _CORE, "const", [],
+    pattern(lambda t: _has(ast.unparse(func(t, "Molecules.rotate_by")), "rot = rotator * self._rotator")))
+add("postAlignShiftNm", "Pose", ["C01", "C05"], "acryo/loader/_base.py", "expr",
+    [("loc_shift", R), ("scale", R)],
+    lambda t: assign_rhs(func(t, "LoaderBase._post_align"), "local_shifts[i]"), subst={"self.scale": "scale"})
+add("postAlignMultiShiftNm", "Pose", ["C01", "C05"], "acryo/loader/_base.py", "expr",
+    [("loc_shift", R), ("scale", R)],
+    lambda t: assign_rhs(func(t, "LoaderBase._post_align_multi_templates"), "local_shifts[i]"),
+    subst={"self.scale": "scale"})
+add("alignMaxShiftsPx", "Pose", ["C01", "C05"], "acryo/loader/_base.py", "expr",
+    [("max_shifts", R), ("scale", R)],
+    lambda t: assign_rhs(func(t, "LoaderBase.align"), "_max_shifts_px").args[0],
+    subst={"np.asarray(max_shifts)": "max_shifts", "self.scale": "scale"})
+add("alignPosPx", "Pose", ["C01"], "acryo/loader/_base.py", "expr", [("pos", R), ("scale", R)],
+    lambda t: kwarg(kwarg(call(func(t, "LoaderBase.align"), "self.construct_mapping_tasks"), "var_kwarg"), "pos"),
+    subst={"self.molecules.pos": "pos", "self.scale": "scale"})
+
+
+def _post_align_structure(t):
+    for q in ("LoaderBase._post_align", "LoaderBase._post_align_multi_templates"):
+        _has(ast.unparse(func(t, q)), "rotator = Rotation.from_quat(local_rot)",
+             "mole_aligned = self.molecules.linear_transform(local_shifts, rotator)",
+             "rotator.as_rotvec()")
+    return True
+
+
+add("postAlignUsesLinearTransform", "Pose", ["C01"], "acryo/loader/_base.py", "const", [],
+    pattern(_post_align_structure))
+add("featureRounding", "Pose", ["C01"], "acryo/loader/_misc.py", "const", [],
+    pattern(lambda t: _has(ast.unparse(func(t, "get_feature_list")),
+                           "pl.Series('score', corr_max)", "pl.Series('align-dz', np.round(local_shifts[:, 0], 2))",
+                           "pl.Series('align-dy', np.round(local_shifts[:, 1], 2))",
+                           "pl.Series('align-dx', np.round(local_shifts[:, 2], 2))",
+                           "pl.Series('align-dzrot', np.round(rotvec[:, 0], 5))")))
